@@ -63,6 +63,14 @@ func renameCases() []renameCase {
 		{"struct", func(g *ir.Global, f *ir.Func) constant.Constant { return constant.NewStruct(types.NewStruct(g.Type(), f.Type()), g, f) }},
 		{"array", func(g *ir.Global, f *ir.Func) constant.Constant { return constant.NewArray(types.NewArray(2, g.Type()), g, g) }},
 		{"vector", func(g *ir.Global, f *ir.Func) constant.Constant { return vec(g) }},
+		{"blockaddress", func(g *ir.Global, f *ir.Func) constant.Constant { return constant.NewBlockAddress(f, f.Blocks[0]) }},
+		{"dso_local_equivalent", func(g *ir.Global, f *ir.Func) constant.Constant { return constant.NewDSOLocalEquivalent(f) }},
+		{"no_cfi", func(g *ir.Global, f *ir.Func) constant.Constant { return constant.NewNoCFI(f) }},
+		{"gep-inrange", func(g *ir.Global, f *ir.Func) constant.Constant {
+			idx := constant.NewIndex(constant.NewInt(types.I64, 1))
+			idx.InRange = true
+			return constant.NewGetElementPtr(types.I32, g, idx)
+		}},
 		{"nested", func(g *ir.Global, f *ir.Func) constant.Constant {
 			return constant.NewStruct(types.NewStruct(i8p, types.I64), constant.NewBitCast(constant.NewGetElementPtr(types.I32, g, one), i8p), constant.NewAdd(p2i(g), one))
 		}},
@@ -134,6 +142,47 @@ func init() {
 			want := m2.String()
 			if got != want {
 				return "FAIL " + c.name + ": after renaming, the module prints " + firstDiff(want, got)
+			}
+			return "ok"
+		}
+		return "FAIL unknown case"
+	})
+	// the same observers, then an edit of another kind — the ADDRESS SPACE of the global variable and of the function (the exported field, the only way the
+	// API offers) —, then a print: the text must be the one the same edits give when nothing was observed before them
+	reg("edit.as", func(a []string) string {
+		for _, c := range renameCases() {
+			if c.name != a[0] {
+				continue
+			}
+			run := func(obs string) string {
+				// (the expression is used as an instruction operand only, in a function whose return type is taken from a TWIN of the expression: nothing
+				// queries the expression itself before the observers do)
+				_, _, _, twin := renameBuild(c, "buf", "fn")
+				m := ir.NewModule()
+				g := m.NewGlobalDef("buf", constant.NewInt(types.I32, 7))
+				f := m.NewFunc("fn", types.Void)
+				f.NewBlock("entry").NewRet(nil)
+				e := c.expr(g, f)
+				u := m.NewFunc("reader", twin.Type())
+				u.NewBlock("entry").NewRet(e)
+				switch obs {
+				case "0":
+					_ = m.String()
+				case "1":
+					_ = e.Ident()
+					_ = e.String()
+					_ = e.Type()
+					if o, ok := e.(interface{ Operands() []*value.Value }); ok {
+						_ = o.Operands()
+					}
+				}
+				g.AddrSpace = 3
+				f.AddrSpace = 1
+				return m.String()
+			}
+			got, want := run(a[1]), run("2")
+			if got != want {
+				return "FAIL " + c.name + ": after the edit, the observed module prints " + firstDiff(want, got)
 			}
 			return "ok"
 		}
